@@ -45,6 +45,8 @@ def run(report):
     # modules with functions first, big ones spread out
     tasks = [(m, str(p), tier, seed(), {q: e for q, e in demoted.items() if q.startswith(calc.short(m) + ".")}, generate)
              for m, p in files if ast_names[m]]
+    if not only:
+        tasks.insert(0, (calc.HOOK_TASK, "", tier, seed(), {}, generate))
     jobs = int(os.environ.get("VERIF_JOBS", "16"))
     t0 = time.time()
     results = []
@@ -63,10 +65,14 @@ def run(report):
     new_demoted = {}
     slow = []
     audit = {"functions": 0, "points": 0, "failures": [], "no_point": 0}
+    extra_kinds = collections.Counter()
     for r in results:
         m = r["modname"]
         if r.get("crash"):
             report.fault(f"worker crashed on {m}: {r['crash'][:300]}")
+            continue
+        if m == calc.HOOK_TASK:
+            _merge_hook(report, r["hook"])
             continue
         if r["import_error"]:
             if m in KNOWN_IMPORT_FAILURES:
@@ -99,6 +105,9 @@ def run(report):
                 audit["points"] += f.audit["accepted"]
                 audit["failures"] += f.audit["failures"]
                 audit["no_point"] += 1 if f.audit["accepted"] == 0 else 0
+            for what, bound, count, clean, fails in f.extra:
+                report.add_bounded(what, bound, count, clean, fails)
+                extra_kinds["exact grid" if "exact grid" in what else "wide magnitudes"] += 1
             if f.klass in ("proved", "refuted", "undecided", "fault"):
                 report.extend(f.obs)
                 if f.klass == "fault" and not f.obs:
@@ -148,6 +157,7 @@ def run(report):
         "classification": dict(klass_count),
         "proved_by_domain": dict(domains),
         "sigma_source": dict(hows),
+        "extra_stand_ins": dict(extra_kinds),
         "not_proved_reasons": dict(reasons.most_common()),
         "pool_wall_s": round(pool_s, 1),
         "slowest_modules": [(round(s, 1), calc.short(m)) for s, m in sorted(slow, reverse=True)[:8]],
@@ -191,6 +201,28 @@ def run(report):
         report.assume(f"rebound in the module globals during generic execution: {n}: {calc.REBOUND.get(n, '')}")
     for a in sorted(axioms_all):
         report.assume(f"axiom instance used as hypothesis: {a}")
+
+
+def _merge_hook(report, h):
+    from ..core import PKG as _PKG
+    report.function("core.symbols.quantities._eval_is_ge", _PKG / calc.HOOK_FILE,
+                    "comparison hook behind every <, <=, >, >= between quantities (Piecewise conditions included)")
+    report.function("core.symbols.quantities.scale_factor", _PKG / calc.HOOK_FILE)
+    report.extend(h["obs"])
+    if h["note"] or not h["obs"]:
+        report.add_out_of_reach("core.symbols.quantities._eval_is_ge / scale_factor: contract from the source (pyvc)",
+                                "the function left the modelled Python subset: " + (h["note"] or "no obligation generated")
+                                + " -- judged by the executed grid only")
+    g = h["grid"]
+    report.add_bounded("core.symbols.quantities._eval_is_ge: executed grid on the real code",
+                       f"{g['count']} comparisons of real Quantities ({g['pairs']} scale-factor pairs: 1e-15..1e15, equal, "
+                       "differing by 1e-13/1e-12/1e-9 relative and absolute, neighbouring magnitudes, zero, all signs; metre "
+                       "and second): >=, <, <=, > and a Piecewise on them must equal the comparison of the float scale "
+                       f"factors; errors: {g['errors']}", g["count"], not g["failures"] and g["count"] > 0, g["failures"])
+    if g["count"] == 0:
+        report.fault(f"comparison-hook grid executed no comparison: {g['errors']}")
+    report.assume("core hook contract: Quantity objects are modelled as objects with a real `scale_factor` field; "
+                  "float(x) is the identity on reals (IEEE rounding ignored); isinstance(q, SymQuantity) holds of quantities")
 
 
 def _bucket(reason: str) -> str:
